@@ -7,6 +7,7 @@ concrete program is in one of the two classes.
 import CoCoVerif.Lemmas.RelocSigned
 import CoCoVerif.Lemmas.RelocMod
 import CoCoVerif.Lemmas.RelocNeg
+import CoCoVerif.Lemmas.RelocEqu
 import CoCoVerif.Lemmas.RelocParse
 
 namespace CoCo.Asm
@@ -344,7 +345,9 @@ def stage4 (lines : List Str) : Option (List Stmt) :=
           match translateAll ss1 with
           | some ss2 =>
             match pcrLoop (ss2.length + 1) ss2 with
-            | .ok ss3 => (match assignAddrs ss3 0 with | .ok ss4 => some ss4 | _ => none)
+            | .ok ss3 =>
+              if !orgOK ss3 false then none else                 -- batch 5: an ORG comes before the first label / byte
+              (match assignAddrs ss3 0 with | .ok ss4 => some ss4 | _ => none)
             | _ => none
           | none => none
         | none => none
@@ -354,7 +357,7 @@ def stage4 (lines : List Str) : Option (List Stmt) :=
 
 theorem stage4_eq {fs : Files} {lines : List Str} {A : Assembly} (st : Stages fs lines A) {x : List Stmt}
     (h : stage4 lines = some x) : st.ss4 = x := by
-  obtain ⟨parsed, ss0, t, ss1, ss2, ss3, ss4, a0, a1, a2, a3, a4, a5, a6, a7, a8⟩ := st
+  obtain ⟨parsed, ss0, t, ss1, ss2, ss3, ss4, t1, a0, a1, a2, a3, a4, a5, a6, a7, a8, a9, a10⟩ := st
   dsimp only
   unfold stage4 at h
   rw [a0] at h
@@ -368,7 +371,103 @@ theorem stage4_eq {fs : Files} {lines : List Str} {A : Assembly} (st : Stages fs
     rw [a3] at h; dsimp only at h
     rw [a4] at h; dsimp only at h
     rw [a5] at h; dsimp only at h
+    rw [a10] at h
+    simp only [Bool.not_true, Bool.false_eq_true, if_false] at h
     rw [a6] at h
+    simpa using h
+  · cases h
+
+/-! ### the classes of a symbol table entry (model batch 4: `evalSyms`), executable -/
+
+theorem negExprB_sound {as : List Stmt} {e : Value} (he : negExprB as e = true) : NegExpr as e := by
+  unfold negExprB at he
+  split at he
+  · rename_i k hh mm nn r op m
+    simp only [Bool.and_eq_true, beq_iff_eq] at he
+    obtain ⟨⟨rfl, hlab⟩, he⟩ := he
+    split at he
+    · rename_i t hi
+      split at he
+      · rename_i a ha
+        exact ⟨_, r, m, t, a, k, nn, rfl, ⟨⟨hh, mm, rfl⟩, hlab, hi, ha⟩, by simpa using he⟩
+      · cases he
+    · cases he
+  · cases he
+
+/-- `EquConst`, executable -/
+def equConstB (t : SymTab) (v : Value) : Bool :=
+  !v.isEquExpr || (match v.resolve t with | .ok x => !x.isAddrExpr | .error _ => true)
+
+theorem equConstB_sound {t : SymTab} {v : Value} (h : equConstB t v = true) : EquConst t v := by
+  intro hv x hx
+  unfold equConstB at h
+  rw [hv, hx] at h
+  simpa using h
+
+/-- `EquLabel C`, executable, for an executable class `c` -/
+def equLabelB (c : Value → Bool) (t : SymTab) (v : Value) : Bool :=
+  v.isEquExpr && (match v.resolve t with | .ok x => x.isAddrExpr && c x | .error _ => false)
+
+theorem equLabelB_sound {C : Value → Prop} {c : Value → Bool} (hc : ∀ x, c x = true → C x) {t : SymTab} {v : Value}
+    (h : equLabelB c t v = true) : EquLabel C t v := by
+  unfold equLabelB at h
+  simp only [Bool.and_eq_true] at h
+  obtain ⟨hv, h2⟩ := h
+  split at h2
+  · rename_i x hx
+    simp only [Bool.and_eq_true] at h2
+    exact ⟨hv, x, hx, h2.1, hc x h2.2⟩
+  · cases h2
+
+/-- `EquCovered`, executable -/
+def equCoveredB (D : Nat) (as : List Stmt) (t : SymTab) (v : Value) : Bool :=
+  v.isAddress || (!v.isAddress && equConstB t v) || equLabelB (numExprB D as) t v || equLabelB (modExprB D as) t v ||
+    equLabelB diffExprB t v || equLabelB (negExprB as) t v
+
+theorem equCoveredB_sound {D : Nat} {as : List Stmt} {t : SymTab} {v : Value} (h : equCoveredB D as t v = true) :
+    EquCovered D as t v := by
+  unfold equCoveredB at h
+  simp only [Bool.or_eq_true, Bool.and_eq_true, Bool.not_eq_true'] at h
+  rcases h with ((((h | ⟨h1, h2⟩) | h) | h) | h) | h
+  · exact .inl h
+  · exact .inr (.inl ⟨h1, equConstB_sound h2⟩)
+  · exact .inr (.inr (.inl (equLabelB_sound (fun _ => numExprB_sound) h)))
+  · exact .inr (.inr (.inr (.inl (equLabelB_sound (fun _ => modExprB_sound) h))))
+  · exact .inr (.inr (.inr (.inr (.inl (equLabelB_sound (fun _ => diffExprB_sound) h)))))
+  · exact .inr (.inr (.inr (.inr (.inr (equLabelB_sound (fun _ => negExprB_sound) h)))))
+
+/-- every entry of the table is covered -/
+def equCoverB (D : Nat) (as : List Stmt) (t : SymTab) : Bool := t.all (fun kv => equCoveredB D as t kv.2)
+
+theorem equCoverB_sound {D : Nat} {as : List Stmt} {t : SymTab} (h : equCoverB D as t = true) :
+    ∀ kv ∈ t, EquCovered D as t kv.2 :=
+  fun kv hkv => equCoveredB_sound (List.all_eq_true.mp h kv hkv)
+
+/-- no EQU of the table is defined by a label expression, executable -/
+def noLabelEquB (t : SymTab) : Bool := t.all (fun kv => equConstB t kv.2)
+
+theorem noLabelEquB_sound {t : SymTab} (h : noLabelEquB t = true) : NoLabelEqu t :=
+  fun kv hkv => equConstB_sound (List.all_eq_true.mp h kv hkv)
+
+/-- the symbol table built from the labels, for an INCLUDE-free program -/
+def stageT (lines : List Str) : Option SymTab :=
+  match parseLines lines with
+  | .ok p => if p.all (fun s => !s.row.isInclude) then buildSymTab p 0 [] else none
+  | _ => none
+
+theorem stageT_eq {fs : Files} {lines : List Str} {A : Assembly} (st : Stages fs lines A) {x : SymTab}
+    (h : stageT lines = some x) : st.t = x := by
+  obtain ⟨parsed, ss0, t, ss1, ss2, ss3, ss4, t1, a0, a1, a2, a3, a4, a5, a6, a7, a8, a9, a10⟩ := st
+  dsimp only
+  unfold stageT at h
+  rw [a0] at h
+  dsimp only at h
+  split at h
+  · rename_i hinc
+    have e := expand_noinclude fs 63 [] parsed hinc
+    rw [show (63 : Nat) + 1 = 64 from rfl, a1] at e
+    cases e
+    rw [a2] at h
     simpa using h
   · cases h
 
